@@ -1,5 +1,5 @@
 # extra entries for genmanifest.py (exec'd there): CHECKS[...] / NA[...] / HOOK_COMMITS
-HOOK_COMMITS = ["00f9f91", "0c36a77"]
+HOOK_COMMITS = ["00f9f91", "0c36a77", "a7a9a70"]
 # only properties whose check currently passes on the unchanged tree with valid evidence are claimed
 CLAIMED = ["C08", "C19"]
 _T = "CBMC 6.11 bounded model checking of the real C sources (goto-cc), "
